@@ -1,0 +1,22 @@
+//go:build verif
+
+package headers
+
+import "context"
+
+// VerifPrune runs the repository's own prune step with a caller-chosen depth (the production
+// depth is the pruneDepth constant). Verification hook only; compiled with the "verif" build tag.
+func (repo *Repository) VerifPrune(ctx context.Context, depth int) error {
+	repo.Lock()
+	defer repo.Unlock()
+
+	return repo.prune(ctx, depth)
+}
+
+// VerifLoad runs the repository's own load step with a caller-chosen prune depth.
+func (repo *Repository) VerifLoad(ctx context.Context, depth int) error {
+	repo.Lock()
+	defer repo.Unlock()
+
+	return repo.load(ctx, depth)
+}
